@@ -81,6 +81,7 @@ func TestC12_DnsResponseIp(t *testing.T) {
 		var rules []c12DnsRule
 		var cfg []*config_parser.RoutingRule
 		var allSets [][]netip.Prefix
+		var nextSet []netip.Prefix // the other half of a pair of split twins
 		for r := 0; r < nr; r++ {
 			o := outs[rapid.IntRange(0, len(outs)-1).Draw(t, "out")]
 			rule := c12DnsRule{Out: o.name, ID: o.id}
@@ -88,8 +89,49 @@ func TestC12_DnsResponseIp(t *testing.T) {
 			nc := rapid.SampledFrom([]int{1, 1, 2}).Draw(t, "nconds")
 			for c := 0; c < nc; c++ {
 				cond := c12DnsCond{Not: rapid.IntRange(0, 3).Draw(t, "not") == 0}
-				if len(allSets) > 0 && rapid.IntRange(0, 3).Draw(t, "reuse") == 0 {
+				if nextSet != nil {
+					cond.Set, nextSet = nextSet, nil
+				} else if len(allSets) > 0 && rapid.IntRange(0, 3).Draw(t, "reuse") == 0 {
 					cond.Set = rapid.Permutation(rapid.SampledFrom(allSets).Draw(t, "reused")).Draw(t, "perm")
+				} else if len(allSets) > 0 && rapid.IntRange(0, 3).Draw(t, "derive") == 0 {
+					// a near-copy of an earlier set: sets that are almost (but not) identical
+					// must stay independent whatever the matcher shares internally
+					base := append([]netip.Prefix(nil), rapid.SampledFrom(allSets).Draw(t, "derived_from")...)
+					switch rapid.IntRange(0, 2).Draw(t, "derive_how") {
+					case 0:
+						extra := rapid.SampledFrom([]string{"::/0", "0.0.0.0/0", "::/1", "8000::/1", "::ffff:0:0/96"}).Draw(t, "derive_extra")
+						if !(known && extra == "::/0") {
+							base = append(base, netip.MustParsePrefix(extra))
+						}
+					case 1:
+						if len(base) > 1 {
+							k := rapid.IntRange(0, len(base)-1).Draw(t, "derive_drop")
+							base = append(base[:k], base[k+1:]...)
+						}
+					default:
+						k := rapid.IntRange(0, len(base)-1).Draw(t, "derive_widen")
+						if b := base[k].Bits(); b > 1 {
+							base[k] = netip.PrefixFrom(base[k].Addr(), b-1).Masked()
+						}
+					}
+					cond.Set = base
+				} else if rapid.IntRange(0, 7).Draw(t, "split_twins") == 0 {
+					// two sets whose prefixes spell the same bit string, cut at different
+					// places: {S[:i], S[i:]} here, {S[:j], S[j:]} for a later condition
+					bits := rapid.SliceOfN(rapid.IntRange(0, 1), 3, 14).Draw(t, "twin_bits")
+					mk := func(bs []int) netip.Prefix {
+						var a [16]byte
+						for i, b := range bs {
+							if b == 1 {
+								a[i/8] |= 0x80 >> uint(i%8)
+							}
+						}
+						return netip.PrefixFrom(netip.AddrFrom16(a), len(bs))
+					}
+					i := rapid.IntRange(1, len(bits)-1).Draw(t, "twin_cut")
+					cond.Set = []netip.Prefix{mk(bits[:i]), mk(bits[i:])}
+					j := rapid.IntRange(1, len(bits)-1).Draw(t, "twin_cut2")
+					nextSet = []netip.Prefix{mk(bits[:j]), mk(bits[j:])} // the next condition
 				} else {
 					cond.Set = g.set(t, rapid.SampledFrom([]int{1, 3, 8, 30}).Draw(t, "max"))
 				}
